@@ -196,8 +196,9 @@ theorem lin_arith : ∀ (e : Exp (Ext K)), arithOnly e = true →
     | mul =>
       rcases num_or_not a with ⟨k, rfl⟩ | hna
       · rw [linExp] at h
-        by_cases hk : Arith.eq k (Arith.zero : Ext K) = true
-        · rw [if_pos hk] at h
+        by_cases hk2 : (Arith.eq k (Arith.zero : Ext K) && !(Exp.mayBeUndefined b)) = true
+        · rw [if_pos hk2] at h
+          have hk : Arith.eq k (Arith.zero : Ext K) = true := (Bool.and_eq_true _ _ ▸ hk2).1
           simp only [pure_ok, Prod.mk.injEq] at h
           obtain ⟨rfl, rfl⟩ := h
           rw [ar_zero]
@@ -209,7 +210,7 @@ theorem lin_arith : ∀ (e : Exp (Ext K)), arithOnly e = true →
           simp only [Ext.fin.injEq] at this
           simp [binVal, ← this] at hpq
           exact ⟨fromRhs_ok 0, by rw [fromRhs_val, hpq]⟩
-        · rw [if_neg hk] at h
+        · rw [if_neg hk2] at h
           simp only [bind_ok, pure_ok, Prod.mk.injEq] at h
           obtain ⟨x, s1, h1, rfl, rfl⟩ := h
           have B := ihb hab _ _ _ _ h1
@@ -225,8 +226,9 @@ theorem lin_arith : ∀ (e : Exp (Ext K)), arithOnly e = true →
             exact ⟨ok', by rw [val', val, ← hpq]; ring⟩
       · rcases num_or_not b with ⟨k, rfl⟩ | hnb
         · rw [linExp.eq_4 _ _ _ hna] at h
-          by_cases hk : Arith.eq k (Arith.zero : Ext K) = true
-          · rw [if_pos hk] at h
+          by_cases hk2 : (Arith.eq k (Arith.zero : Ext K) && !(Exp.mayBeUndefined a)) = true
+          · rw [if_pos hk2] at h
+            have hk : Arith.eq k (Arith.zero : Ext K) = true := (Bool.and_eq_true _ _ ▸ hk2).1
             simp only [pure_ok, Prod.mk.injEq] at h
             obtain ⟨rfl, rfl⟩ := h
             rw [ar_zero]
@@ -238,7 +240,7 @@ theorem lin_arith : ∀ (e : Exp (Ext K)), arithOnly e = true →
             simp only [Ext.fin.injEq] at this
             simp [binVal, ← this] at hpq
             exact ⟨fromRhs_ok 0, by rw [fromRhs_val, hpq]⟩
-          · rw [if_neg hk] at h
+          · rw [if_neg hk2] at h
             simp only [bind_ok, pure_ok, Prod.mk.injEq] at h
             obtain ⟨x, s1, h1, rfl, rfl⟩ := h
             have A := iha haa _ _ _ _ h1
